@@ -249,6 +249,10 @@ fn main() {
     let trace = args.iter().any(|a| a == "--trace");
     let text = std::fs::read_to_string(&args[1]).expect("corpus file");
     std::panic::set_hook(Box::new(|_| {}));
+    // features-on builds: an application that uses rand_jitter's `log` feature may run with any
+    // log level; the most verbose one makes every log statement evaluate its arguments
+    #[cfg(feature = "serde")]
+    log::set_max_level(log::LevelFilter::Trace);
     let mut out = String::new();
     for (i, line) in text.lines().enumerate() {
         if line.trim().is_empty() || line.starts_with('#') {
